@@ -124,7 +124,7 @@ var c04Alphabet = []lineKind{
 	{"  a: 1", 'E', "a", "1", ""},
 	{"\tb b:\t2.5", 'E', "b b", "2.5", ""},
 	{"  - c/d: -3", 'E', "c/d", "-3", ""},
-	{"    \"e\": 4e0 ", 'E', "e", "4e0", ""},
+	{"    \"e\": 010 ", 'E', "e", "010", ""},
 	{" \tf: g:  +0.125\t", 'E', "f: g", "+0.125", ""},
 	{"  - \"h, i\": 1.5e-1", 'E', "h, i", "1.5e-1", ""},
 	{"# comment: 12", '.', "", "", ""},
@@ -344,7 +344,10 @@ func c04RandomBook(r *rand.Rand) gen.Book {
 
 // c04Num: every documented number form.
 func c04Num(r *rand.Rand) gen.Num {
-	switch r.Intn(8) {
+	switch r.Intn(9) {
+	case 8:
+		// leading zeros are digits like any other (the grammar's Quantity is a digit string)
+		return gen.N([]string{"010", "0755", "-012", "+0100", "007.50", "00.5", "0017", "-00.25", "000", "0123456", "01e2", "08", "0x"[:1] + "9"}[r.Intn(13)])
 	case 0:
 		return gen.N(fmt.Sprintf("+%d.%d", r.Intn(100), r.Intn(1000)))
 	case 1:
